@@ -18,11 +18,17 @@
         after its issuance: the observed gap is given to the judge op `c06` as the observed wait;
       * an unparsable certificate file next to a healthy certificate: the process lives, the healthy one is
         issued, nothing is requested for the broken one; (thorough) once the broken file is removed a
-        request follows within the first back-off step.
+        request follows within the first back-off step;
+      * a NEIGHBOUR: a second certificate of the same endpoint (same account, or an account of its own), installed
+        with 90 days of life, waits for ITS date the whole time while the watched certificate has no file yet (its
+        first request is judged: immediately), becomes due a few seconds later (short / installed-short), or loses
+        its file while the daemon runs (`removed`: the file is taken away while a second post-operation hook holds
+        the daemon, the evaluation that follows finds it missing).  A request for the neighbour is judged too.
 """
 import concurrent.futures
 import os
 import shutil
+import sys
 import time
 
 import cfggen
@@ -286,6 +292,8 @@ def part_triples(ctx, helper, root):
 # black-box: the daemon's loop
 
 IDS = ["loop-a.example.org", "loop-b.example.org"]
+NBR = "nbr.example.org"
+HOLD_S = 1.5      # kind "removed": a second post-operation hook (a sleep) keeps the daemon from evaluating that long
 # clock slack of the black-box part: 1 s ASN.1 resolution at each end + scheduling latency of a loaded machine
 LOOP_SLACK_S = 4.0
 
@@ -302,6 +310,13 @@ def loop_scenarios(ctx):
         # installed, due in W seconds: the FIRST request comes after the wait
         {"kind": "installed-short", "pair_secs": 11, "delay_s": 4, "rer_s": 0, "watch_s": 13, "valid_secs": 90 * DAY},
         {"kind": "broken-cert", "watch_s": 8, "valid_secs": 90 * DAY},
+        # the same with a neighbour on the endpoint that waits 60 days for its own date
+        {"kind": "short", "valid_secs": 13, "delay_s": 5, "rer_s": 0, "watch_s": 14, "neighbour": "same-account"},
+        {"kind": "installed-short", "pair_secs": 11, "delay_s": 4, "rer_s": 0, "watch_s": 13, "valid_secs": 90 * DAY,
+         "neighbour": "same-account"},
+        {"kind": "short", "valid_secs": 15, "delay_s": 4, "rer_s": 3, "watch_s": 17, "neighbour": "other-account"},
+        # the file of a fresh certificate removed while the daemon runs, before the evaluation that follows the issuance
+        {"kind": "removed", "valid_secs": 90 * DAY, "watch_s": 10, "neighbour": "same-account"},
     ]
     if not ctx.quick():
         scs += [{"kind": "short", "valid_secs": ctx.rng.randint(10, 30), "delay_s": ctx.rng.randint(1, 6),
@@ -309,6 +324,14 @@ def loop_scenarios(ctx):
         scs += [{"kind": "installed-short", "pair_secs": ctx.rng.randint(8, 25), "delay_s": ctx.rng.randint(1, 5),
                  "rer_s": ctx.rng.choice([0, 3]), "watch_s": 30, "valid_secs": 90 * DAY} for _ in range(4)]
         scs += [{"kind": "broken-cert", "watch_s": 8, "valid_secs": 90 * DAY, "repair_after_s": 5}]
+        scs += [{"kind": "short", "valid_secs": ctx.rng.randint(10, 30), "delay_s": ctx.rng.randint(1, 6),
+                 "rer_s": ctx.rng.choice([0, 0, 2, 5]), "watch_s": 34, "neighbour": ctx.rng.choice(["same-account", "other-account"])}
+                for _ in range(3)]
+        scs += [{"kind": "installed-short", "pair_secs": ctx.rng.randint(8, 25), "delay_s": ctx.rng.randint(1, 5),
+                 "rer_s": ctx.rng.choice([0, 3]), "watch_s": 30, "valid_secs": 90 * DAY,
+                 "neighbour": ["other-account", "same-account"][i % 2]} for i in range(2)]
+        scs += [{"kind": "removed", "valid_secs": 90 * DAY, "watch_s": 10, "neighbour": "other-account"},
+                {"kind": "removed", "valid_secs": 90 * DAY, "watch_s": 10}]
     for i, s in enumerate(scs):
         s["idx"] = i
     return scs
@@ -341,7 +364,29 @@ def run_loop(sc, root, helper):
             f.write(r["key_pem"])
         certs.append({"name": "healthy", "identifiers": [{"dns": "healthy.example.org", "challenge": "http-01"}],
                       "key_type": "ecdsa_p256"})
-    cfg, log = flow.make_config(d, ca.base + "/directory", certs)
+    accounts = None
+    if sc.get("neighbour"):
+        # a second certificate of the SAME endpoint, installed with 90 days of life (default renew_delay: its own
+        # date is 60 days away); under the watched certificate's account or under one of its own
+        r = helper.call({"op": "selfsigned", "dns": [NBR], "ips": [], "not_after_offset": 90 * DAY, "type": "ecdsa-p256"})
+        ncrt, nkey = flow.cert_paths(d, "nbr")
+        with open(ncrt, "w") as f:
+            f.write(r["cert_pem"])
+        with open(nkey, "w") as f:
+            f.write(r["key_pem"])
+        nb = {"name": "nbr", "identifiers": [{"dns": NBR, "challenge": "http-01"}], "key_type": "ecdsa_p256"}
+        if sc["neighbour"] == "other-account":
+            accounts = [{"name": "acc1", "contacts": [{"mailto": "a@example.org"}]},
+                        {"name": "acc2", "contacts": [{"mailto": "b@example.org"}]}]
+            nb["account"] = "acc2"
+        certs.append(nb)
+    cfg, log = flow.make_config(d, ca.base + "/directory", certs, accounts)
+    if sc["kind"] == "removed":
+        # a second post-operation hook, run after the recorder's: the daemon cannot evaluate the certificate again
+        # before it ends, the harness removes the file meanwhile
+        cfg["hook"].append({"name": "hold-post-operation", "type": ["post-operation"], "cmd": sys.executable,
+                            "args": ["-c", "import time; time.sleep(%s)" % HOLD_S]})
+        cfg["certificate"][0]["hooks"] = ["rec-all", "hold-post-operation"]
     cfg_path = cfggen.write(os.path.join(d, "acmed.toml"), cfg)
     t_start = time.monotonic_ns()
     dmn = flow.Daemon(cfg_path)
@@ -351,10 +396,30 @@ def run_loop(sc, root, helper):
 
     obs = {"sc": sc}
     try:
-        if sc["kind"] in ("issued-fresh", "short"):
+        if sc["kind"] in ("issued-fresh", "short", "removed"):
             ok = flow.wait_progress(lambda: len(flow.post_ops(log)) >= 1 or not dmn.alive(), lambda: len(ca.log), idle=40, cap=200)
             fin = [e for e in ca.log if e["kind"] == "req" and e["rk"] == "finalize"]
             obs["first_done"] = bool(ok and fin)
+            # the watched certificate had no file when the daemon started: its first request (None: none came)
+            o = orders(IDS[0])
+            obs["first_gap_ns"] = (o[0]["t"] - t_start) if o else None
+            obs["first_watched_ns"] = time.monotonic_ns() - t_start
+        if sc["kind"] == "removed":
+            if obs["first_done"]:
+                rec = flow.post_ops(log)[0]
+                try:
+                    os.unlink(crt)
+                except FileNotFoundError:
+                    pass        # (missing already: that is what the evaluation is meant to find)
+                t_rm = time.monotonic_ns()
+                # the evaluation that follows cannot begin before the holding hook (started after the recorder ended) is over
+                t_free = rec["t_end"] + int(HOLD_S * NS)
+                obs["t_ref"] = t_free
+                obs["removed_in_time"] = t_rm < t_free
+                flow.wait_for(lambda: len(orders(IDS[0])) >= 2 or not dmn.alive(), sc["watch_s"], step=0.05)
+                o = orders(IDS[0])
+                obs["gap_ns"] = (o[1]["t"] - t_free) if len(o) >= 2 else None
+        elif sc["kind"] in ("issued-fresh", "short"):
             t_ref = fin[-1]["t"] if fin else time.monotonic_ns()
             obs["t_ref"] = t_ref
             flow.wait_for(lambda: len(orders(IDS[0])) >= 2 or not dmn.alive(), sc["watch_s"], step=0.05)
@@ -379,6 +444,9 @@ def run_loop(sc, root, helper):
                 o = orders(IDS[0])
                 obs["after_repair_ns"] = (o[0]["t"] - t_rm) if o else None
         obs["watched_ns"] = time.monotonic_ns() - (obs.get("t_ref") or t_start)
+        if sc.get("neighbour"):
+            o = orders(NBR)
+            obs["nbr_gap_ns"] = (o[0]["t"] - t_start) if o else None
     finally:
         obs["rc"] = dmn.stop()
         ca.stop()
@@ -410,9 +478,14 @@ def judge_loop(ctx, obs):
                               "step (%d s): %s" % (secs, gap), robj)
         ctx.traces += 1
         return
-    if sc["kind"] in ("issued-fresh", "short") and not obs.get("first_done"):
+    if sc.get("neighbour") or sc["kind"] == "removed":
+        if not judge_neighbourhood(ctx, sc, obs, robj):
+            return
+    if sc["kind"] in ("issued-fresh", "short", "removed") and not obs.get("first_done"):
         ctx.broke("harness", "loop scenario %s: the first issuance did not complete" % sc["kind"], robj)
         return
+    if sc["kind"] == "removed":
+        return judge_removed(ctx, sc, obs, robj)
     life = sc.get("pair_secs") if sc["kind"].startswith("installed") else sc["valid_secs"]
     delay = sc.get("delay_s", 30 * DAY)
     rer = sc.get("rer_s", 0)
@@ -444,9 +517,67 @@ def judge_loop(ctx, obs):
         ctx.sample({"x-loop": sc, "gap_s": None if not seen else round(observed / 1e9, 2)})
 
 
+def missing_file_judge(gap_ns, watched_ns, key_file=False):
+    """Judge input for an evaluation that found the certificate file missing: the wait the daemon decided on must be 0.
+    What is observable is the instant of the request: the wait is that gap less the clock slack of the black-box part
+    (when no request came at all: the time watched, a lower bound)."""
+    observed = max(gap_ns - int(LOOP_SLACK_S * NS), 0) if gap_ns is not None else watched_ns
+    return {"op": "c06", "disk": {"key_file": key_file, "cert_file": False, "cert": None}, "ids": IDS, "delay_ns": "0",
+            "rer_ns": "0", "slack_ns": str(int(LOOP_SLACK_S * NS)), "observed_ns": str(max(observed, 0))}
+
+
+def judge_neighbourhood(ctx, sc, obs, robj):
+    """Scenarios with a neighbour on the endpoint.  False: a violation was reported, nothing more to judge."""
+    tag = "x:loop:nbr=%s:" % sc.get("neighbour")
+    if sc.get("neighbour") and obs.get("nbr_gap_ns") is not None:
+        # the neighbour itself: covering, 90 days of life, default renew_delay — not due while watched
+        j = {"op": "c06", "disk": {"key_file": True, "cert_file": True, "cert": {"sans": [NBR], "not_after_in": 90 * DAY}},
+             "ids": [NBR], "delay_ns": str(30 * DAY * NS), "rer_ns": "0", "slack_ns": str(int(LOOP_SLACK_S * NS)),
+             "observed_ns": str(max(obs["nbr_gap_ns"], 0))}
+        v = vlib.model([j])[0]
+        if not (v["holds"] and v.get("fresh_ok", True)):
+            ctx.violation("%s: the neighbouring certificate (90 days of life) was requested %.2f s after the start" % (
+                sc["kind"], obs["nbr_gap_ns"] / 1e9), dict(robj, judge_in=j, verdict=v))
+            return False
+    if "first_gap_ns" in obs:
+        # the watched certificate had no file at the start: requested at once, whatever its neighbour is waiting for
+        j = missing_file_judge(obs["first_gap_ns"], obs["first_watched_ns"])
+        v = vlib.model([j])[0]
+        ctx.count(tag + "first-request:" + ("seen" if obs["first_gap_ns"] is not None else "none"))
+        if not v["holds"]:
+            ctx.violation("%s with a neighbour (%s) waiting for its own date on the same endpoint: the certificate has no file, "
+                          "%s" % (sc["kind"], sc.get("neighbour"),
+                                  ("its first request came %.2f s after the start" % (obs["first_gap_ns"] / 1e9))
+                                  if obs["first_gap_ns"] is not None else
+                                  ("no request at all in %.2f s" % (obs["first_watched_ns"] / 1e9))),
+                          dict(robj, judge_in=j, verdict=v))
+            return False
+    return True
+
+
+def judge_removed(ctx, sc, obs, robj):
+    """The certificate file was removed while the holding hook kept the daemon from evaluating: the evaluation that
+    follows finds the key but no certificate, a request follows at once.  A removal that came too late (after the
+    hold) may have come after the evaluation as well: then that evaluation saw a fresh certificate (no request)."""
+    seen = obs.get("gap_ns") is not None
+    ctx.count("x:loop:removed:%s:%s" % ("in-time" if obs.get("removed_in_time") else "late", "request-seen" if seen else "no-request"))
+    j = missing_file_judge(obs.get("gap_ns"), obs["watched_ns"], key_file=True)
+    v = vlib.model([j])[0]
+    robj["judge_in"], robj["verdict"] = j, v
+    ctx.traces += 1
+    if v["holds"]:
+        return
+    if not obs.get("removed_in_time") and not seen:
+        ctx.count("x:loop:removed:undecided")      # the other reading: evaluated before the removal, fresh, no request
+        return
+    ctx.violation("removed: the certificate file was removed before the evaluation that follows the issuance; %s" % (
+        ("the request came %.2f s after the daemon was free to evaluate" % (obs["gap_ns"] / 1e9)) if seen else
+        ("no request in %.2f s" % (obs["watched_ns"] / 1e9))), robj)
+
+
 def part_loop(ctx, helper, root):
     scs = loop_scenarios(ctx)
-    with concurrent.futures.ThreadPoolExecutor(max_workers=8) as ex:
+    with concurrent.futures.ThreadPoolExecutor(max_workers=12) as ex:
         results = list(ex.map(lambda s: run_loop(s, root, helper), scs))
     for obs in results:
         judge_loop(ctx, obs)
